@@ -10,7 +10,7 @@ let rec int_of_pos (p : positive) : int =
   match p with XH -> 1 | XO q -> 2 * int_of_pos q | XI q -> 2 * int_of_pos q + 1
 let int_of_n (x : n) : int = match x with N0 -> 0 | Npos p -> int_of_pos p
 let int_of_z (x : z) : int = match x with Z0 -> 0 | Zpos p -> int_of_pos p | Zneg p -> - (int_of_pos p)
-let rec nat_of_int (i : int) : nat = if i <= 0 then O else S (nat_of_int (i - 1))
+let nat_of_int (i : int) : nat = let rec go i acc = if i <= 0 then acc else go (i - 1) (S acc) in go i O
 let rec int_of_nat (x : nat) : int = match x with O -> 0 | S y -> 1 + int_of_nat y
 
 let hexval c =
@@ -78,8 +78,8 @@ let show_err (e : perr option) : string =
 let opt_err (e : bytes option) = match e with None -> "ok" | Some m -> "err:" ^ hex_of_bytes m
 
 (* compile <hex> : class|parse error|tree|compose text|compose err|source map entries|generate text|generate err *)
-let compile_of (input : n list) : string =
-  match compile_parse input with
+let show_outcome (o : outcome) : string =
+  match o with
   | OPanic -> "panic" | OHang -> "hang" | ODeadlock -> "deadlock"
   | ODone (t, e) ->
     let ((ctext, adds), cerr) = compose t in
@@ -87,6 +87,13 @@ let compile_of (input : n list) : string =
     String.concat "|" [ "done"; show_err e; hex_of_bytes (tree_dump t O); hex_of_bytes ctext; opt_err cerr;
                         show_entries adds; hex_of_bytes gtext; opt_err gerr; show_adds adds;
                         (if keys_unique (sm_entries adds) then "unique" else "overlap") ]
+
+let compile_of (input : n list) : string = show_outcome (compile_parse input)
+
+(* the same with the budgets of the termination theorem: 9(n+1) for the pump, 460(n+1)+2 for the parser's loop *)
+let compile_big (input : n list) : string =
+  let n = List.length input in
+  show_outcome (compile_parse_with (nat_of_int (9 * (n + 1))) (nat_of_int (460 * (n + 1) + 2)) input)
 
 (* ---- proxy histories: events separated by ';', fields by ',' ---- *)
 let z_of_int (i : int) : z = if i = 0 then Z0 else if i > 0 then Zpos (pos_of_int i) else Zneg (pos_of_int (-i))
@@ -293,6 +300,7 @@ let handle (line : string) : string =
     Printf.sprintf "ok %d %s" (int_of_nat i) (hex_of_bytes text)
   | [ "detailpkg"; h ] -> "ok " ^ hex_of_bytes (detail_package (bytes_of_hex h))
   | [ "compile"; h ] -> compile_of (bytes_of_hex h)
+  | [ "compilebig"; h ] -> compile_big (bytes_of_hex h)
   | [ "infragment"; h ] ->
     (match file_in_fragment (bytes_of_hex h) with
      | Some (k, n) -> Printf.sprintf "ok %d/%d" (int_of_nat k) (int_of_nat n)
